@@ -269,7 +269,7 @@ class Exec(Ops):
     b = self.spec.bindings
     if name in b:
       self.used_externals.add(name)
-      return b[name]
+      return b[name].value() if isinstance(b[name], GlobalVar) else b[name]
     if name in GLOBAL_BINDINGS:
       return GLOBAL_BINDINGS[name]
     if name in C.SPECFNS and (self.spec_mode or self.spec.kind == 'lemma'):
@@ -277,6 +277,8 @@ class Exec(Ops):
     if name in C.LEMMAS:
       return C.LEMMAS[name]
     mg = self.spec.module_globals.get(name)
+    if isinstance(mg, GlobalVar):
+      return mg.value()
     if isinstance(mg, (Sort, C.SpecFn, UFn)):
       return mg
     for v in self.spec.module_globals.values():
